@@ -217,18 +217,31 @@ fn judge_bin(ctx: &Ctx, o: &crate::sut::BinOutcome, out_exists: bool, offending:
             if panics.is_empty() {
                 if o.stderr.trim().is_empty() && o.stdout.trim().is_empty() {
                     sigs.push(("C07|bin|failure-without-diagnostic".into(), format!("exit {c} with empty stderr")));
-                } else if !offending.is_empty() && !offending.iter().any(|f| o.stderr.contains(f.as_str()) || o.stdout.contains(f.as_str())) {
-                    // which kind of failure forgot the file name
-                    let kind = if o.stderr.contains("Post generation") {
-                        "post-generation"
-                    } else if o.stderr.contains("Could not get parsed data") {
-                        "nothing-to-generate"
-                    } else if o.stderr.contains("failed to generate types") {
-                        "generation-error"
-                    } else {
-                        "other"
-                    };
-                    sigs.push((format!("C07|bin|diagnostic-without-file-name|{kind}"), format!("exit {c}; stderr names none of {offending:?}: {}", o.stderr.lines().last().unwrap_or(""))));
+                } else {
+                    // the diagnostic is what the tool says about the failure: the INFO line echoing the command-line
+                    // directories does not count as naming the offending path
+                    let diag: String = o.stderr.lines().chain(o.stdout.lines()).filter(|l| !l.contains("] INFO [") && !l.contains("] DEBUG [")).collect::<Vec<_>>().join("\n");
+                    if !offending.is_empty() && !offending.iter().any(|f| diag.contains(f.as_str())) {
+                        // which kind of failure forgot the file name
+                        let kind = if diag.contains("Failed traversing") {
+                            "traversal"
+                        } else if diag.contains("Parsing failed") || diag.contains("Parsing error") {
+                            "parse"
+                        } else if diag.contains("Post generation") {
+                            "post-generation"
+                        } else if diag.contains("Could not get parsed data") {
+                            "nothing-to-generate"
+                        } else if diag.contains("failed to write") || diag.contains("output directory") {
+                            "write"
+                        } else if diag.contains("onfig") {
+                            "configuration"
+                        } else if diag.contains("failed to generate types") {
+                            "generation-error"
+                        } else {
+                            "other"
+                        };
+                        sigs.push((format!("C07|bin|diagnostic-without-file-name|{kind}"), format!("exit {c}; the diagnostic names none of {offending:?}: {}", diag.lines().last().unwrap_or(""))));
+                    }
                 }
             }
         }
@@ -331,42 +344,153 @@ pub fn run(ctx: &Ctx) -> (Spec, Report) {
     });
     rep.count("edge_classes", corp.len() as u64);
 
-    // ---- (c) file-system level faults --------------------------------------------------------------------
+    // ---- (c) file-system / invocation faults, one per tree: the diagnostic has to name exactly that path -------
     {
         let root = scratch.join("fsfaults");
-        let _ = std::fs::create_dir_all(root.join("src_root/c/src"));
-        std::fs::write(root.join("src_root/c/src/good.rs"), "#[typeshare]\npub struct Good { pub a: u8 }\n").unwrap();
-        std::fs::write(root.join("src_root/c/src/invalid_utf8.rs"), b"#[typeshare]\npub struct Bad { pub a: u8 } // \xff\xfe\n").unwrap();
-        let _ = std::os::unix::fs::symlink("/nonexistent/target.rs", root.join("src_root/c/src/dangling.rs"));
-        let _ = std::os::unix::fs::symlink("loop_b.rs", root.join("src_root/c/src/loop_a.rs"));
-        let _ = std::os::unix::fs::symlink("loop_a.rs", root.join("src_root/c/src/loop_b.rs"));
-        let _ = std::fs::create_dir_all(root.join("src_root/c/src/dir_named.rs"));
-        std::fs::write(root.join("src_root/c/src/dir_named.rs/inner.rs"), "#[typeshare]\npub struct Inner { pub a: u8 }\n").unwrap();
-        let _ = std::os::unix::fs::symlink("..", root.join("src_root/c/src/up"));
-        std::fs::write(root.join("src_root/c/src/empty.rs"), "").unwrap();
-        for (k, (lang, multi, follow)) in [(LangId::Ts, false, false), (LangId::Ts, true, true), (LangId::Swift, true, false), (LangId::Go, false, true), (LangId::Python, false, false), (LangId::Kotlin, true, true)].iter().enumerate() {
-            let cfg = LangCfg::basic(*lang);
-            let out = if *multi { root.join(format!("out{k}")) } else { root.join(format!("out{k}.{}", lang.ext())) };
-            let mut args = cli_args(*lang, &cfg, *multi, &out, &["src_root"]);
-            if *follow {
-                args.insert(0, "--follow-links".into());
-            }
-            let o = run_bin(BinRun { cli: &cli, args: args.clone(), env: vec![], cwd: &root, strace: None, wall_limit: Duration::from_secs(30) });
-            rep.eval(1);
-            rep.count("cli_runs", 1);
-            rep.cell(format!("fs-faults|{}|{}|follow={follow}", lang.name(), multi));
-            let v = judge_bin(ctx, &o, true, &["invalid_utf8.rs".to_string(), "loop_a.rs".into(), "loop_b.rs".into(), "dangling.rs".into(), "up".into()], "fs-faults", if *multi { "multi-file" } else { "single-file" }, lang.name());
-            for (sig, what) in v.sigs {
-                if sig.starts_with("INCONCLUSIVE") {
-                    rep.inconclusive("watchdog-without-diagnosis", json!({"class": "fs-faults", "diag": what}));
+        let good = "#[typeshare]\npub struct Good { pub a: u8 }\n";
+        // (name, setup, offending path fragment, extra args before the rest, input dirs)
+        struct Fault {
+            name: &'static str,
+            offending: Vec<String>,
+            follow: bool,
+            dirs: Vec<&'static str>,
+            out_is_wrong_kind: bool,
+            config: Option<&'static str>,
+        }
+        let faults: Vec<Fault> = vec![
+            Fault { name: "invalid-utf8-file", offending: vec!["invalid_utf8.rs".into()], follow: false, dirs: vec!["t_utf8"], out_is_wrong_kind: false, config: None },
+            Fault { name: "unparsable-file", offending: vec!["unparsable.rs".into()], follow: false, dirs: vec!["t_unparsable"], out_is_wrong_kind: false, config: None },
+            Fault { name: "dangling-symlink-followed", offending: vec!["dangling.rs".into()], follow: true, dirs: vec!["t_dangling"], out_is_wrong_kind: false, config: None },
+            Fault { name: "symlink-loop-followed", offending: vec!["loop_a.rs".into(), "loop_b.rs".into()], follow: true, dirs: vec!["t_loop"], out_is_wrong_kind: false, config: None },
+            Fault { name: "missing-input-directory", offending: vec!["no_such_dir".into()], follow: false, dirs: vec!["no_such_dir"], out_is_wrong_kind: false, config: None },
+            Fault { name: "missing-directory-next-to-valid", offending: vec!["no_such_dir".into()], follow: false, dirs: vec!["t_good", "no_such_dir"], out_is_wrong_kind: false, config: None },
+            Fault { name: "output-location-of-wrong-kind", offending: vec!["wrong_kind_out".into()], follow: false, dirs: vec!["t_good"], out_is_wrong_kind: true, config: None },
+            // the property's quantifier is over source files and paths: a broken configuration file only has to end the run
+            // with a diagnostic (it does: "Unable to read configuration file" + the TOML error), not to be named
+            Fault { name: "config-file-syntax-error", offending: vec![], follow: false, dirs: vec!["t_good"], out_is_wrong_kind: false, config: Some("broken_config.toml") },
+            Fault { name: "config-file-missing", offending: vec![], follow: false, dirs: vec!["t_good"], out_is_wrong_kind: false, config: Some("absent_config.toml") },
+        ];
+        for d in ["t_utf8", "t_unparsable", "t_dangling", "t_loop", "t_good"] {
+            let _ = std::fs::create_dir_all(root.join(d).join("c/src"));
+            std::fs::write(root.join(d).join("c/src/good.rs"), good).unwrap();
+        }
+        std::fs::write(root.join("t_utf8/c/src/invalid_utf8.rs"), b"#[typeshare]\npub struct Bad { pub a: u8 } // \xff\xfe\n").unwrap();
+        std::fs::write(root.join("t_unparsable/c/src/unparsable.rs"), "#[typeshare]\npub struct {{{{\n").unwrap();
+        let _ = std::os::unix::fs::symlink("/nonexistent/target.rs", root.join("t_dangling/c/src/dangling.rs"));
+        let _ = std::os::unix::fs::symlink("loop_b.rs", root.join("t_loop/c/src/loop_a.rs"));
+        let _ = std::os::unix::fs::symlink("loop_a.rs", root.join("t_loop/c/src/loop_b.rs"));
+        let _ = std::fs::create_dir_all(root.join("t_good/c/src/dir_named.rs"));
+        std::fs::write(root.join("t_good/c/src/dir_named.rs/inner.rs"), "#[typeshare]\npub struct Inner { pub a: u8 }\n").unwrap();
+        let _ = std::os::unix::fs::symlink("..", root.join("t_good/c/src/up"));
+        std::fs::write(root.join("t_good/c/src/empty.rs"), "").unwrap();
+        std::fs::write(root.join("broken_config.toml"), "[swift\nprefix = \n").unwrap();
+        let mut k = 0;
+        for f in &faults {
+            for (lang, multi) in [(LangId::Ts, false), (LangId::Kotlin, true), (LangId::Swift, true), (LangId::Go, false), (LangId::Python, false)] {
+                k += 1;
+                let cfg = LangCfg::basic(lang);
+                let out = if f.out_is_wrong_kind {
+                    // a directory where a file is requested, a file where a folder is requested
+                    let p = root.join(format!("wrong_kind_out{k}"));
+                    if multi {
+                        std::fs::write(&p, "occupied").unwrap();
+                    } else {
+                        std::fs::create_dir_all(&p).unwrap();
+                    }
+                    p
+                } else if multi {
+                    root.join(format!("out{k}"))
                 } else {
-                    rep.violate(sig, format!("fs-faults ({}, follow_links={follow}): {what}", lang.name()), json!({"args": args, "stderr": o.stderr.chars().take(1500).collect::<String>(), "tree": "good.rs, invalid_utf8.rs, dangling symlink, symlink cycle, directory named dir_named.rs, symlink to .., empty.rs"}));
+                    root.join(format!("out{k}.{}", lang.ext()))
+                };
+                let mut args = cli_args(lang, &cfg, multi, &out, &f.dirs);
+                if f.follow {
+                    args.insert(0, "--follow-links".into());
+                }
+                if let Some(c) = f.config {
+                    args.insert(0, c.to_string());
+                    args.insert(0, "--config-file".into());
+                }
+                let o = run_bin(BinRun { cli: &cli, args: args.clone(), env: vec![], cwd: &root, strace: None, wall_limit: Duration::from_secs(30) });
+                rep.eval(1);
+                rep.count("cli_runs", 1);
+                rep.count("fault_runs", 1);
+                let mode = if multi { "multi-file" } else { "single-file" };
+                rep.cell(format!("fs-fault|{}|{}|{mode}|{}", f.name, lang.name(), match &o.exit { Exit::Code(0) => "exit0".to_string(), Exit::Code(_) => "exit-nonzero".into(), Exit::Signal(_) => "signal".into(), Exit::Timeout(_) => "watchdog".into() }));
+                let v = judge_bin(ctx, &o, true, &f.offending, f.name, mode, lang.name());
+                for (sig, what) in v.sigs {
+                    if sig.starts_with("INCONCLUSIVE") {
+                        rep.inconclusive("watchdog-without-diagnosis", json!({"class": f.name, "diag": what}));
+                    } else {
+                        rep.violate(format!("{sig}|{}", f.name), format!("{} ({}, {mode}): {what}", f.name, lang.name()), json!({"fault": f.name, "args": args, "stderr": o.stderr.chars().take(1500).collect::<String>()}));
+                    }
+                }
+                if matches!(o.exit, Exit::Code(0)) && !matches!(f.name, "dangling-symlink-followed" | "symlink-loop-followed") {
+                    // success although the named input / output / configuration could not be used: nothing told the user
+                    rep.violate(format!("C07|bin|fault-ignored-silently|{}", f.name), format!("exit 0 although {:?} could not be used", f.offending), json!({"fault": f.name, "args": args, "stderr": o.stderr.chars().take(800).collect::<String>()}));
                 }
             }
-            if matches!(o.exit, Exit::Code(0)) {
-                // success while a file could not be read: nothing told the user
-                rep.violate("C07|bin|unreadable-file-ignored-silently", "exit 0 although invalid_utf8.rs could not be read".to_string(), json!({"args": args, "stderr": o.stderr.chars().take(800).collect::<String>()}));
+        }
+        let _ = std::fs::remove_dir_all(&root);
+    }
+
+    // ---- (d) one fatal file among many valid ones: the walker threads race with the collector's early return ----
+    {
+        let root = scratch.join("fatal-among-many");
+        let n_trees = ctx.tier.pick(3, 8);
+        let mut rng = Rng::derive(ctx.seed, "C07-fatal-among-many", 0);
+        for t in 0..n_trees {
+            let tr = root.join(format!("t{t}"));
+            let n_files = [40usize, 150, 400][t % 3];
+            let mut files = vec![];
+            for i in 0..n_files {
+                files.push(SrcFile { path: format!("src_root/k{}/src/d{}/f{i}.rs", i % 3, i % 7), source: format!("#[typeshare]\npub struct S{t}x{i} {{ pub a: u32, pub b: Vec<String> }}\n#[typeshare]\n#[serde(tag = \"t\", content = \"c\")]\npub enum E{t}x{i} {{ A, B(u32), C {{ x: bool }} }}\n") });
             }
+            let (bad_name, bad_src): (&str, &[u8]) = match t % 3 {
+                0 => ("a_unparsable.rs", b"#[typeshare]\npub struct {{{{\n"),
+                1 => ("m_invalid_utf8.rs", b"#[typeshare]\npub struct Bad { pub a: u8 } // \xff\xfe\n"),
+                _ => ("z_unparsable.rs", b"#[typeshare]\npub enum E { A(, }\n"),
+            };
+            write_tree(&tr, &files);
+            std::fs::write(tr.join(format!("src_root/k1/src/{bad_name}")), bad_src).unwrap();
+            let runs = ctx.tier.pick(24, 120);
+            let jobs: Vec<(usize, u64)> = (0..runs).map(|_| (*rng.pick(&[2usize, 3, 4, 8, 16]), rng.below(1000) as u64)).collect();
+            let cli_ref = &cli;
+            let tr_ref = &tr;
+            let results = par_shards(ctx.threads.min(4), jobs.len(), |j| {
+                let (th, dseed) = jobs[j];
+                let mut rep = Report::new();
+                let lang = [LangId::Ts, LangId::Kotlin, LangId::Swift, LangId::Python][j % 4];
+                let multi = j % 2 == 1 && lang != LangId::Python;
+                let cfg = LangCfg::basic(lang);
+                let out = if multi { tr_ref.join(format!("out{j}")) } else { tr_ref.join(format!("out{j}.{}", lang.ext())) };
+                let args = cli_args(lang, &cfg, multi, &out, &["src_root"]);
+                let mut env = vec![("TYPESHARE_VERIF_THREADS".to_string(), th.to_string())];
+                if j % 3 != 0 {
+                    env.push(("TYPESHARE_VERIF_DELAYS".to_string(), format!("{dseed}:300")));
+                }
+                let o = run_bin(BinRun { cli: cli_ref, args: args.clone(), env, cwd: tr_ref, strace: None, wall_limit: Duration::from_secs(60) });
+                rep.eval(1);
+                rep.count("cli_runs", 1);
+                rep.count("fatal_among_many_runs", 1);
+                let mode = if multi { "multi-file" } else { "single-file" };
+                rep.cell(format!("fatal-among-many|files={n_files}|threads={th}|{mode}"));
+                let v = judge_bin(ctx, &o, true, &[bad_name.to_string()], "fatal-among-many", mode, lang.name());
+                for (sig, what) in v.sigs {
+                    if sig.starts_with("INCONCLUSIVE") {
+                        rep.inconclusive("watchdog-without-diagnosis", json!({"class": "fatal-among-many", "diag": what}));
+                    } else {
+                        rep.violate(sig, format!("one fatal file ({bad_name}) among {n_files} valid ones, {th} walker threads ({}, {mode}): {what}", lang.name()), json!({"args": args, "threads": th, "files": n_files, "stderr": o.stderr.chars().take(1500).collect::<String>()}));
+                    }
+                }
+                if matches!(o.exit, Exit::Code(0)) {
+                    rep.violate("C07|bin|fault-ignored-silently|fatal-among-many".to_string(), format!("exit 0 although {bad_name} cannot be parsed"), json!({"args": args}));
+                }
+                let _ = std::fs::remove_dir_all(&out);
+                let _ = std::fs::remove_file(&out);
+                rep
+            });
+            rep.merge(results);
         }
         let _ = std::fs::remove_dir_all(&root);
     }
